@@ -92,7 +92,7 @@ fn gen(rng: &mut Rng, tier: Tier) -> Vec<Case> {
             for k in 0..4u64 { h.init.push((s0 + 2 * k, s0 + 2 * k + 2, 700 + k)); }
             if rng.chance(1, 2) { h.init.push((s0, s0 + 40, 800)); }
         }
-        if i % 6 == 5 { h.lift_to_top(rng.below(3)); } // at the top of the coordinate type
+        if i % 6 == 5 { h.lift_to_top(rng.below(4)); } // at the top of the coordinate type
         let a = around(&h.endpoints());
         let mut qs = vec![];
         for _ in 0..(if small { 12 } else { 20 }) { let s = *rng.pick(&a); let e = *rng.pick(&a); if s < e { qs.push((s, e)); } }
